@@ -596,6 +596,12 @@ impl File {
         self.failed_runid = Some(0);
     }
 
+    /// Reports whether the last build of the file has not been recorded as
+    /// successful: it failed, or it was interrupted.
+    pub fn is_unfinished(&self) -> bool {
+        self.failed_runid.is_some()
+    }
+
     pub fn set_checked(&mut self, v: &Env) {
         self.checked_runid = v.runid;
     }
